@@ -79,6 +79,13 @@ func (c *lruCache) BulkAdd(id, n uint64) {
 
 // Add adds a count to the cache.
 func (c *lruCache) Add(id, n uint64) {
+	if n == 0 {
+		// An empty row has no place in the cache: kept as an entry it can
+		// push a row that does have bits out of a cache they would all fit in.
+		c.cache.Remove(id)
+		delete(c.counts, id)
+		return
+	}
 	c.cache.Add(id, n)
 	c.counts[id] = n
 }
